@@ -55,9 +55,10 @@ type Cmd struct {
 	Async bool              `json:"async,omitempty"`
 	// burst: Docs and Docs2 are sent as two concurrent bulks; the first goroutine to reach
 	// DelayPoint sleeps DelayMs there (schedule perturbation, not a crash)
-	Docs2      []model.Doc `json:"docs2,omitempty"`
-	DelayPoint string      `json:"delay_point,omitempty"`
-	DelayMs    int         `json:"delay_ms,omitempty"`
+	MappingFields []string    `json:"mapping_fields,omitempty"`
+	Docs2         []model.Doc `json:"docs2,omitempty"`
+	DelayPoint    string      `json:"delay_point,omitempty"`
+	DelayMs       int         `json:"delay_ms,omitempty"`
 }
 
 type Resp struct {
@@ -201,7 +202,14 @@ func main() {
 			}
 			st = s
 			if c.Async {
-				as = fracmanager.MustStartAsync(fracmanager.AsyncSearcherConfig{DataDir: filepath.Join(c.Dir, "async_searches"), Parallelism: 2}, harness.MappingProv{}, st.FM)
+				mp := harness.MappingProv{}
+				if len(c.MappingFields) > 0 { // only these fields are indexed (all keyword); nil mapping: every field
+					mp.M = seq.Mapping{}
+					for _, f := range c.MappingFields {
+						mp.M[f] = seq.NewSingleType(seq.TokenizerTypeKeyword, "", 0)
+					}
+				}
+				as = fracmanager.MustStartAsync(fracmanager.AsyncSearcherConfig{DataDir: filepath.Join(c.Dir, "async_searches"), Parallelism: 2}, mp, st.FM)
 			}
 			reply(Resp{OK: true})
 		case "startasync":
@@ -219,7 +227,24 @@ func main() {
 			}
 			reply(Resp{OK: true})
 		case "fetchasync":
-			fr, ok := as.FetchSearchResult(fracmanager.FetchSearchResultRequest{ID: c.ID})
+			type fres struct {
+				fr fracmanager.FetchSearchResultResponse
+				ok bool
+			}
+			fch := make(chan fres, 1)
+			go func() {
+				fr, ok := as.FetchSearchResult(fracmanager.FetchSearchResultRequest{ID: c.ID})
+				fch <- fres{fr, ok}
+			}()
+			var fr fracmanager.FetchSearchResultResponse
+			var ok bool
+			select {
+			case r := <-fch:
+				fr, ok = r.fr, r.ok
+			case <-time.After(15 * time.Second):
+				reply(Resp{Err: "hang: FetchSearchResult did not return within 15 s"})
+				continue
+			}
 			if !ok {
 				reply(Resp{OK: true, Found: false})
 				continue
